@@ -255,11 +255,24 @@ func (rr *RRSIG) Sign(k crypto.Signer, rrset []RR) error {
 	rr.TypeCovered = h0.Rrtype
 	rr.Labels = uint8(CountLabel(h0.Name))
 
-	if strings.HasPrefix(h0.Name, "*") {
+	if isWildcardName(h0.Name) {
 		rr.Labels-- // wildcard, remove from label count
 	}
 
 	return rr.signAsIs(k, rrset)
+}
+
+// isWildcardName reports whether the leftmost label of name is the wildcard label
+// of RFC 4592, section 2.1.1: the single octet '*', however the text spells it. A
+// label that merely begins with an asterisk ("*foo") is an ordinary label and
+// counts for the Labels field (RFC 4034, section 3.1.3).
+func isWildcardName(name string) bool {
+	for _, w := range [...]string{"*", `\*`, `\042`} {
+		if rest, ok := strings.CutPrefix(name, w); ok && (rest == "" || rest[0] == '.') {
+			return true
+		}
+	}
+	return false
 }
 
 func (rr *RRSIG) signAsIs(k crypto.Signer, rrset []RR) error {
